@@ -791,6 +791,42 @@ func main() {
 			return false
 		})
 	}
+	// C06: every decoder allocation passes the size, alignment and GC type of ONE type node
+	// (`d.Malloc([l*]X.Size, X.Align, X.MallocAbiType)`), the only exception being string / binary
+	// bytes (`d.Malloc(l, 1, 0)`, pointer-free); and newTType sets MallocAbiType for exactly the
+	// kinds that can hold pointers.
+	typedAllocOK, typedAllocSites := true, 0
+	for _, fd := range []*ast.FuncDecl{dec, dty, findMethod(rf, "tDecoder", "mallocIfPointer")} {
+		if fd == nil {
+			typedAllocOK = false
+			continue
+		}
+		ast.Inspect(fd.Body, func(n ast.Node) bool {
+			ce, ok := n.(*ast.CallExpr)
+			if !ok || src(ce.Fun) != "d.Malloc" {
+				return true
+			}
+			typedAllocSites++
+			if len(ce.Args) != 3 {
+				typedAllocOK = false
+				return true
+			}
+			a0 := strings.Join(strings.Fields(src(ce.Args[0])), "")
+			a1, a2 := src(ce.Args[1]), src(ce.Args[2])
+			if a0 == "l" && a1 == "1" && a2 == "0" {
+				return true
+			}
+			a0 = strings.TrimPrefix(a0, "l*")
+			x := strings.TrimSuffix(a0, ".Size")
+			if x == a0 || a1 != x+".Align" || a2 != x+".MallocAbiType" {
+				typedAllocOK = false
+			}
+			return true
+		})
+	}
+	ntt := findFunc(rf, "newTType")
+	typedAllocOK = typedAllocOK && contains(ntt, `switch t\.RT\.Kind\(\) \{ case reflect\.Array, reflect\.Map, reflect\.Ptr, reflect\.Slice, reflect\.String, reflect\.Struct: t\.MallocAbiType = rtTypePtr\(t\.RT\)`) &&
+		contains(findMethod(rf, "tDecoder", "Malloc"), `if n > defaultDecoderMemSize/8 \|\| abiType != 0 \{[^}]*return mallocgc\(uintptr\(n\), abiType, abiType != 0\) \} return d\.s\.Malloc\(n, align\)`)
 	zeroTests := 0
 	for _, fd := range []*ast.FuncDecl{dec, dty} {
 		if fd != nil && len(fd.Body.List) > 0 && contains(fd.Body.List[0], `^if maxdepth == 0 \{ return 0, errDepthLimitExceeded \}$`) {
@@ -799,6 +835,7 @@ func main() {
 	}
 	w("  recursionDecrements := %v\n  recursiveCalls := %d\n  depthZeroTests := %d\n", decrements, nRec, zeroTests)
 	w("  allocAfterSizeCheck := %v\n  allocSitesSized := %d\n", allocOK, allocSites)
+	w("  typedAllocOK := %v\n  typedAllocSites := %d\n", typedAllocOK, typedAllocSites)
 	top := findFunc(rf, "Decode")
 	w("  topLevelUsesLimit := %v\n", contains(top, `d\.Decode\(b, rv\.UnsafePointer\(\), sd, maxDepthLimit\)`))
 	// C08
